@@ -75,6 +75,12 @@ def _synthetic_arrays(key):
             "segment": seg}
     if cfg.get("innate_tip", False):
         cols["tip position"] = tp + off
+        if cfg.get("tip_noise"):
+            # a recorded tip position is not exactly monotonic
+            rng2 = np.random.Generator(np.random.PCG64(
+                int(cfg.get("seed", 1)) + 7919))
+            cols["tip position"] = cols["tip position"] + rng2.normal(
+                0, float(cfg["tip_noise"]), tp.size)
     for a in cols.values():
         a.setflags(write=False)
     return cols, k
